@@ -306,4 +306,258 @@ Section Ins.
             rewrite (Hmono2 n v E). discriminate.
     Qed.
   End Phase1.
+
+  (* ---------------------------------------------------------------- phase 2: copying the children order *)
+  Fixpoint pre_in (m : mapping) (todo : list nid) (x : nid) : option nid :=
+    match todo with
+    | [] => None
+    | n :: r => match mget m n with
+                | Some v => if Nat.eqb v x then Some n else pre_in m r x
+                | None => pre_in m r x
+                end
+    end.
+  Lemma pre_in_sound m todo x n : pre_in m todo x = Some n -> In n todo /\ mget m n = Some x.
+  Proof.
+    induction todo as [|k r IH]; cbn; [discriminate|].
+    destruct (mget m k) as [v|] eqn:E.
+    - destruct (Nat.eqb_spec v x) as [->|]; [intros [= <-]; auto|intros H; apply IH in H; tauto].
+    - intros H; apply IH in H; tauto.
+  Qed.
+  Lemma pre_in_complete m todo x n : In n todo -> mget m n = Some x -> pre_in m todo x <> None.
+  Proof.
+    induction todo as [|k r IH]; cbn; [tauto|]. intros [->|Hin] E.
+    - rewrite E, Nat.eqb_refl. discriminate.
+    - destruct (mget m k) as [v|]; [destruct (Nat.eqb v x); [discriminate|]|]; auto.
+  Qed.
+  Lemma map_opt_mapn (m : mapping) l : (forall c, In c l -> mget m c <> None) ->
+    map_opt (mget m) l = Some (map (mapn m) l).
+  Proof.
+    induction l as [|c r IH]; cbn; [reflexivity|]. intros H. unfold mapn at 1.
+    destruct (mget m c) as [v|] eqn:E; [|exfalso; apply (H c); auto].
+    rewrite IH; [reflexivity|]. intros x Hx. apply H. now right.
+  Qed.
+  Definition kids (B : hugr) (n : nid) : list nid :=
+    match get_node B n with Some d => nd_children d | None => [] end.
+
+  Lemma copy_children_ok (B : hugr) (m : mapping) :
+    (forall c1 c2 v, mget m c1 = Some v -> mget m c2 = Some v -> c1 = c2) ->
+    forall todo Ak,
+    (forall n, In n todo -> exists d n' d', get_node B n = Some d /\ mget m n = Some n' /\ get_node Ak n' = Some d' /\
+                                            forall c, In c (nd_children d) -> mget m c <> None) ->
+    exists A2, copy_children Ak B m todo = (A2, Ok) /\ links A2 = links Ak /\ root A2 = root Ak /\
+      free A2 = free Ak /\ length (nodes A2) = length (nodes Ak) /\
+      forall x, get_node A2 x = match pre_in m todo x, get_node Ak x with
+                                | Some n, Some d => Some (set_children d (map (mapn m) (kids B n)))
+                                | _, o => o
+                                end.
+  Proof.
+    intros Hinj. induction todo as [|n rest IH]; intros Ak Hall; cbn [copy_children].
+    - exists Ak. repeat split; try reflexivity.
+    - destruct (Hall n ltac:(now left)) as (d & n' & d' & Ed & Em & Ed' & Hch).
+      rewrite Ed, Em, Ed', (map_opt_mapn m _ Hch).
+      set (Ak' := set_node Ak n' (set_children d' (map (mapn m) (nd_children d)))).
+      assert (Hget' : forall x, get_node Ak' x = if Nat.eqb x n' then Some (set_children d' (map (mapn m) (nd_children d))) else get_node Ak x).
+      { intros x. subst Ak'. apply get_set_node. eapply get_node_lt; eassumption. }
+      destruct (IH Ak') as (A2 & Hc & Hl & Hr & Hf & Hlen & Hget).
+      { intros k Hk. destruct (Hall k ltac:(now right)) as (dk & k' & dk' & E1 & E2 & E3 & E4).
+        exists dk, k'. rewrite Hget'. destruct (Nat.eqb k' n'); eauto. }
+      exists A2. split; [exact Hc|]. split; [rewrite Hl; reflexivity|]. split; [rewrite Hr; reflexivity|].
+      split; [rewrite Hf; reflexivity|]. split; [rewrite Hlen; subst Ak'; apply length_set_nth|].
+      intros x. rewrite Hget, Hget'. cbn [pre_in]. rewrite Em.
+      destruct (Nat.eqb_spec n' x) as [->|Hne].
+      + rewrite Nat.eqb_refl, Ed'. unfold kids at 2. rewrite Ed.
+        destruct (pre_in m rest x) as [n2|] eqn:Ep; [|reflexivity].
+        apply pre_in_sound in Ep. destruct Ep as [_ Ep]. assert (n2 = n) by (eapply Hinj; eassumption). subst n2.
+        unfold kids. rewrite Ed. reflexivity.
+      + destruct (Nat.eqb_spec x n'); [congruence|]. reflexivity.
+  Qed.
+
+  (* ---------------------------------------------------------------- the state after phases 1 and 2 *)
+  Definition WF (B : hugr) : Prop :=
+    exists depth : nid -> nat, forall n d q, get_node B n = Some d -> nd_parent d = Some q -> depth q < depth n.
+
+  Record Shape (A B : hugr) (p : nid) (m : mapping) (A2 : hugr) : Prop := {
+    sh_free : FreeOK A2;
+    sh_links : links A2 = links A;
+    sh_root : root A2 = root A;
+    sh_keys : NoDup (map fst m);
+    sh_dom : forall c, mget m c <> None <-> get_node B c <> None;
+    sh_inj : forall c1 c2 v, mget m c1 = Some v -> mget m c2 = Some v -> c1 = c2;
+    sh_fresh : forall c c', mget m c = Some c' -> get_node A c' = None;
+    sh_old : forall x d, get_node A x = Some d ->
+               get_node A2 x = Some (if Nat.eqb x p then add_child (mapn m (root B)) d else d);
+    sh_copy : forall c c' b, mget m c = Some c' -> get_node B c = Some b ->
+               exists d', get_node A2 c' = Some d' /\ nd_op d' = nd_op b /\ nd_meta d' = nd_meta b /\
+                 nd_outs d' = nd_outs b /\ nd_inps d' = 0%Z /\
+                 nd_parent d' = Some (match nd_parent b with None => p | Some q => mapn m q end) /\
+                 nd_children d' = map (mapn m) (nd_children b);
+    sh_only : forall x, get_node A2 x <> None -> get_node A x <> None \/ exists c, mget m c = Some x
+  }.
+
+  Lemma tree_facts (B : hugr) : Tree B ->
+    (exists rb, get_node B (root B) = Some rb /\ nd_parent rb = None) /\
+    (forall n d q, get_node B n = Some d -> nd_parent d = Some q -> get_node B q <> None) /\
+    (forall n d, get_node B n = Some d -> nd_parent d = None -> n = root B).
+  Proof.
+    intros (T1 & T2 & T3 & T4). split; [exact T1|]. split.
+    - intros n d q E P. destruct T1 as (rb & Er & Pr).
+      destruct (Nat.eq_dec n (root B)) as [->|Hne]; [congruence|].
+      destruct (T2 n d E Hne) as (p0 & pd & P0 & Ep & _). congruence.
+    - intros n d E P. destruct (Nat.eq_dec n (root B)) as [|Hne]; [assumption|].
+      destruct (T2 n d E Hne) as (p0 & pd & P0 & _). congruence.
+  Qed.
+
+  Lemma phase12 (A B : hugr) (parent : option nid) :
+    let p := match parent with Some x => x | None => root A end in
+    Inv A -> Inv B -> WF B -> get_node A p <> None ->
+    exists A1 A2 m, insert_nodes A B [] parent (iter_nodes B) = (A1, m, Ok) /\
+                    copy_children A1 B m (iter_nodes B) = (A2, Ok) /\ Shape A B p m A2.
+  Proof.
+    intros p HIA HIB (depth & Hdepth) HpA. pose proof HIB as (_ & _ & _ & HTB).
+    destruct (tree_facts B HTB) as (HrootB & Hparlive & Honlyroot).
+    destruct (nodes_ok A B parent HpA HrootB depth Hdepth Hparlive Honlyroot (iter_nodes B) A []
+                (P1_init A B parent HIA)) as (A1 & m & Hins & HP & _ & Hall).
+    { intros n Hn. now apply iter_nodes_In. }
+    fold p in HP.
+    assert (Hdom : forall c, mget m c <> None <-> get_node B c <> None).
+    { intros c. split.
+      - intros H. destruct (mget m c) as [c'|] eqn:E; [|congruence].
+        destruct (p1_copy _ _ _ _ _ HP c c' E) as (_ & b & _ & Eb & _). congruence.
+      - intros H. apply Hall. now apply iter_nodes_In. }
+    destruct (copy_children_ok B m (p1_inj _ _ _ _ _ HP) (iter_nodes B) A1) as (A2 & Hcc & Hl2 & Hr2 & Hf2 & Hlen2 & Hget2).
+    { intros n Hn. apply iter_nodes_In in Hn. destruct (get_node B n) as [d|] eqn:Ed; [|congruence].
+      destruct (mget m n) as [n'|] eqn:Em; [|exfalso; apply (proj2 (Hdom n)); congruence].
+      destruct (p1_copy _ _ _ _ _ HP n n' Em) as (_ & b & d' & Eb & Ed' & _).
+      exists d, n', d'. repeat split; try assumption. intros c Hc. apply Hdom.
+      destruct HTB as (_ & _ & T3 & _). destruct (T3 n d c Ed Hc) as (dc & Ec & _). congruence. }
+    exists A1, A2, m. split; [exact Hins|]. split; [exact Hcc|].
+    assert (Hrootm : is_mapped m (root B) = true).
+    { unfold is_mapped. destruct HrootB as (rb & Er & _). destruct (mget m (root B)) eqn:E; [reflexivity|].
+      exfalso. apply (proj2 (Hdom (root B))); congruence. }
+    constructor.
+    - apply (FreeOK_ext A1); [|exact Hf2|exact Hlen2|exact (p1_free _ _ _ _ _ HP)].
+      intros x. rewrite Hget2. destruct (pre_in m (iter_nodes B) x); destruct (get_node A1 x); split; congruence.
+    - now rewrite Hl2, (p1_links _ _ _ _ _ HP).
+    - now rewrite Hr2, (p1_root _ _ _ _ _ HP).
+    - exact (p1_keys _ _ _ _ _ HP).
+    - exact Hdom.
+    - exact (p1_inj _ _ _ _ _ HP).
+    - intros c c' E. now destruct (p1_copy _ _ _ _ _ HP c c' E).
+    - intros x d Ex. rewrite Hget2.
+      assert (pre_in m (iter_nodes B) x = None) as ->.
+      { destruct (pre_in m (iter_nodes B) x) as [n|] eqn:E; [|reflexivity]. apply pre_in_sound in E.
+        destruct E as [_ E]. destruct (p1_copy _ _ _ _ _ HP n x E) as (H & _). congruence. }
+      rewrite (p1_old _ _ _ _ _ HP x d Ex), Hrootm, andb_true_r. reflexivity.
+    - intros c c' b Em Eb. rewrite Hget2.
+      destruct (p1_copy _ _ _ _ _ HP c c' Em) as (_ & b0 & d' & Eb0 & Ed' & F1 & F2 & F3 & F4 & F5 & _).
+      assert (b0 = b) by congruence. subst b0.
+      destruct (pre_in m (iter_nodes B) c') as [n|] eqn:E.
+      + apply pre_in_sound in E. destruct E as [_ E].
+        assert (n = c) by (eapply (p1_inj _ _ _ _ _ HP); eassumption). subst n.
+        rewrite Ed'. eexists. split; [reflexivity|]. cbn. unfold kids. rewrite Eb. repeat split; assumption.
+      + exfalso. apply (pre_in_complete m (iter_nodes B) c' c); [apply iter_nodes_In; congruence|assumption|assumption].
+    - intros x. rewrite Hget2. intros H. apply (p1_only _ _ _ _ _ HP).
+      destruct (pre_in m (iter_nodes B) x); destruct (get_node A1 x); congruence.
+  Qed.
+
+  Lemma mapn_get (m : mapping) c c' : mget m c = Some c' -> mapn m c = c'.
+  Proof. unfold mapn. now intros ->. Qed.
+  Lemma NoDup_map_inj_in {X Y} (f : X -> Y) (l : list X) :
+    (forall a b, In a l -> In b l -> f a = f b -> a = b) -> NoDup l -> NoDup (map f l).
+  Proof.
+    induction l as [|x r IH]; cbn; intros Hf Hnd; [constructor|]. inversion Hnd; subst. constructor.
+    - intros Hin. apply in_map_iff in Hin. destruct Hin as (y & Ey & Hy).
+      assert (y = x) by (apply Hf; auto). subst y. contradiction.
+    - apply IH; [|assumption]. intros a b Ha Hb. apply Hf; auto.
+  Qed.
+
+  Lemma shape_inv (A B : hugr) p m A2 : Inv A -> Inv B -> get_node A p <> None -> Shape A B p m A2 -> Inv A2.
+  Proof.
+    intros (HLA & HFA & HCA & HTA) (HLB & HFB & HCB & HTB) HpA HS.
+    destruct (tree_facts B HTB) as ((rb & Erb & Prb) & Hparlive & Honlyroot).
+    pose proof HTA as (TA1 & TA2 & TA3 & TA4). pose proof HTB as (TB1 & TB2 & TB3 & TB4).
+    destruct (get_node A p) as [dp|] eqn:Edp; [|congruence].
+    (* images *)
+    assert (Himg : forall c b, get_node B c = Some b -> exists c', mget m c = Some c' /\ mapn m c = c').
+    { intros c b E. destruct (mget m c) as [c'|] eqn:Em; [exists c'; split; [reflexivity|now apply mapn_get]|].
+      exfalso. apply (proj2 (sh_dom _ _ _ _ _ HS c)); congruence. }
+    destruct (Himg _ _ Erb) as (r' & Emr & Hr').
+    split; [|split; [|split]].
+    - rewrite (sh_links _ _ _ _ _ HS). exact HLA.
+    - exact (sh_free _ _ _ _ _ HS).
+    - intros s t Hin. rewrite (sh_links _ _ _ _ _ HS) in Hin.
+      destruct (HCA s t Hin) as ((d & E & Bd) & (d2 & E2 & Bd2)). split.
+      + rewrite (sh_old _ _ _ _ _ HS _ _ E). eexists. split; [reflexivity|]. destruct (Nat.eqb (fst s) p); exact Bd.
+      + rewrite (sh_old _ _ _ _ _ HS _ _ E2). eexists. split; [reflexivity|]. destruct (Nat.eqb (fst t) p); exact Bd2.
+    - unfold Tree. rewrite (sh_root _ _ _ _ _ HS). split; [|split; [|split]].
+      + destruct TA1 as (d & E & P). rewrite (sh_old _ _ _ _ _ HS _ _ E). eexists. split; [reflexivity|].
+        destruct (Nat.eqb (root A) p); exact P.
+      + intros x dx Ex Hxr.
+        destruct (sh_only _ _ _ _ _ HS x ltac:(congruence)) as [Hlive|(c & Ec)].
+        * destruct (get_node A x) as [d|] eqn:Ed; [|congruence].
+          rewrite (sh_old _ _ _ _ _ HS _ _ Ed) in Ex. injection Ex as <-.
+          destruct (TA2 x d Ed Hxr) as (q & qd & Pq & Eq & Hin).
+          exists q. eexists. split; [destruct (Nat.eqb x p); exact Pq|].
+          split; [exact (sh_old _ _ _ _ _ HS _ _ Eq)|].
+          destruct (Nat.eqb q p); [cbn; apply in_or_app; now left|exact Hin].
+        * assert (Hb : exists b, get_node B c = Some b).
+          { destruct (get_node B c) as [b|] eqn:E; [eauto|]. exfalso. apply (proj1 (sh_dom _ _ _ _ _ HS c)); congruence. }
+          destruct Hb as (b & Eb).
+          destruct (sh_copy _ _ _ _ _ HS c x b Ec Eb) as (d' & Ed' & _ & _ & _ & _ & Pd' & _).
+          assert (dx = d') by congruence. subst dx.
+          destruct (nd_parent b) as [q|] eqn:Eq.
+          -- (* parent is the image of q *)
+             assert (Hcr : c <> root B) by (intros ->; congruence).
+             destruct (TB2 c b Eb Hcr) as (q0 & qd & Pq & Eqd & Hin). assert (q0 = q) by congruence. subst q0.
+             destruct (Himg _ _ Eqd) as (q' & Emq & Hq').
+             destruct (sh_copy _ _ _ _ _ HS q q' qd Emq Eqd) as (dq & Edq & _ & _ & _ & _ & _ & Cdq).
+             exists q', dq. rewrite Hq' in Pd'. split; [exact Pd'|]. split; [exact Edq|].
+             rewrite Cdq. apply in_map_iff. exists c. split; [now apply mapn_get|exact Hin].
+          -- assert (c = root B) by (eapply Honlyroot; eassumption). subst c.
+             exists p. eexists. split; [exact Pd'|]. split; [exact (sh_old _ _ _ _ _ HS _ _ Edp)|].
+             rewrite Nat.eqb_refl. cbn. apply in_or_app. right. left. now apply mapn_get.
+      + intros x dx y Ex Hy.
+        destruct (sh_only _ _ _ _ _ HS x ltac:(congruence)) as [Hlive|(c & Ec)].
+        * destruct (get_node A x) as [d|] eqn:Ed; [|congruence].
+          rewrite (sh_old _ _ _ _ _ HS _ _ Ed) in Ex. injection Ex as <-.
+          assert (Hcase : In y (nd_children d) \/ (x = p /\ y = r')).
+          { destruct (Nat.eqb_spec x p) as [->|]; [|now left]. cbn in Hy. apply in_app_or in Hy.
+            destruct Hy as [Hy|[Hy|[]]]; [now left|right]. split; [reflexivity|]. now rewrite <- Hy, Hr'. }
+          destruct Hcase as [Hin|[-> ->]].
+          -- destruct (TA3 x d y Ed Hin) as (dy & Edy & Pdy). rewrite (sh_old _ _ _ _ _ HS _ _ Edy).
+             eexists. split; [reflexivity|]. destruct (Nat.eqb y p); exact Pdy.
+          -- destruct (sh_copy _ _ _ _ _ HS _ _ _ Emr Erb) as (d' & Ed' & _ & _ & _ & _ & Pd' & _).
+             exists d'. split; [exact Ed'|]. now rewrite Prb in Pd'.
+        * assert (Hb : exists b, get_node B c = Some b).
+          { destruct (get_node B c) as [b|] eqn:E; [eauto|]. exfalso. apply (proj1 (sh_dom _ _ _ _ _ HS c)); congruence. }
+          destruct Hb as (b & Eb).
+          destruct (sh_copy _ _ _ _ _ HS c x b Ec Eb) as (d' & Ed' & _ & _ & _ & _ & _ & Cd').
+          assert (dx = d') by congruence. subst dx. rewrite Cd' in Hy. apply in_map_iff in Hy.
+          destruct Hy as (c2 & <- & Hc2). destruct (TB3 c b c2 Eb Hc2) as (b2 & Eb2 & Pb2).
+          destruct (Himg _ _ Eb2) as (c2' & Em2 & Hc2').
+          destruct (sh_copy _ _ _ _ _ HS c2 c2' b2 Em2 Eb2) as (d2 & Ed2 & _ & _ & _ & _ & Pd2 & _).
+          rewrite Hc2'. exists d2. split; [exact Ed2|]. rewrite Pb2 in Pd2. now rewrite (mapn_get _ _ _ Ec) in Pd2.
+      + intros x dx Ex.
+        destruct (sh_only _ _ _ _ _ HS x ltac:(congruence)) as [Hlive|(c & Ec)].
+        * destruct (get_node A x) as [d|] eqn:Ed; [|congruence].
+          rewrite (sh_old _ _ _ _ _ HS _ _ Ed) in Ex. injection Ex as <-.
+          destruct (Nat.eqb_spec x p) as [->|]; [|eapply TA4; eassumption].
+          cbn. assert (Hnd : NoDup (nd_children d)) by (eapply TA4; eassumption).
+          assert (Hnin : ~ In (mapn m (root B)) (nd_children d)).
+          { intros Hin. destruct (TA3 p d _ Ed Hin) as (dy & Edy & _). rewrite Hr' in Edy.
+            rewrite (sh_fresh _ _ _ _ _ HS _ _ Emr) in Edy. discriminate. }
+          clear - Hnd Hnin. induction (nd_children d) as [|a r IH]; cbn; [repeat constructor; auto|].
+          inversion Hnd; subst. constructor; [|apply IH; [assumption|intros H; apply Hnin; now right]].
+          rewrite in_app_iff. cbn. intros [H|[H|[]]]; [contradiction|]. apply Hnin. now left.
+        * assert (Hb : exists b, get_node B c = Some b).
+          { destruct (get_node B c) as [b|] eqn:E; [eauto|]. exfalso. apply (proj1 (sh_dom _ _ _ _ _ HS c)); congruence. }
+          destruct Hb as (b & Eb).
+          destruct (sh_copy _ _ _ _ _ HS c x b Ec Eb) as (d' & Ed' & _ & _ & _ & _ & _ & Cd').
+          assert (dx = d') by congruence. subst dx. rewrite Cd'.
+          apply NoDup_map_inj_in; [|eapply TB4; eassumption].
+          intros a1 a2 H1 H2 E.
+          destruct (TB3 c b a1 Eb H1) as (b1 & E1 & _). destruct (TB3 c b a2 Eb H2) as (b2 & E2 & _).
+          destruct (Himg _ _ E1) as (v1 & Em1 & Hv1). destruct (Himg _ _ E2) as (v2 & Em2 & Hv2).
+          eapply (sh_inj _ _ _ _ _ HS); [exact Em1|]. rewrite Em2. f_equal. congruence.
+  Qed.
 End Ins.
